@@ -148,13 +148,13 @@ CHECKS = {
         note='A finite number of schedules is observed. TSan cannot see inside the assembly routines (they touch only their arguments).',
         ref='DESIGN.md section 3 C20'),
     'C03': dict(
-        technique='differential execution of one vector set on five back ends (x86-64 BMI2/ADX and baseline assembly via dispatch swap and direct calls, portable 64-bit, portable 32-bit, AArch64 assembly under a subset interpreter) against an integer oracle',
+        technique='differential execution of one vector set on six back ends (x86-64 BMI2/ADX and baseline assembly via dispatch swap and direct calls, portable 64-bit, portable 32-bit, AArch64 assembly under a subset interpreter of its disassembly, ARMv6-M assembly under a source-level Thumb-1 interpreter) against an integer oracle',
         text='Raw add/subtract/double/multiply/square, modular add/subtract/double, Montgomery reduction/multiplication/squaring are run with distinct and aliased outputs on every '
              'executable back end; each answer (bytes and carry/borrow/shift-out) must equal Python integer arithmetic and all back ends must be byte-identical. Vectors are constructed: '
              'carry/borrow chains through every limb, sums on/around q with equal top word, reduction inputs T=v*2^384-m*q with prescribed pre-subtraction value (every arm of the asm '
              'tails, v=q exactly, intermediate meta-carries), all-ones squares. The AArch64 routines must execute every instruction at least once. Tower, group-law and '
              'scalar-multiplication workloads are additionally diffed across prod/x86-baseline/portable-64/portable-32.',
-        note='ARMv6-M assembly cannot be assembled or executed in this image (pre-UAL syntax, no emulator): not covered, stated in the evidence. AArch64 runs under oracle/a64.py, not silicon.',
+        note='AArch64 runs under oracle/a64.py on the llvm-mc object, ARMv6-M under oracle/thumb.py on the source text (it cannot be assembled here: pre-UAL syntax); neither is silicon. The one encoding that is ambiguous without the assembler (low-register MOV) is run under all three readings and must not matter.',
         ref='DESIGN.md section 3 C03'),
 }
 
